@@ -1531,12 +1531,9 @@ where
                                 }
                                 ExtendedProtocolData::Bind { data, metadata } => {
                                     // This is using a prepared statement
-                                    if let Some(client_given_name) = metadata {
+                                    if let Some((parse, hash)) = metadata {
                                         self.ensure_prepared_statement_is_on_server(
-                                            client_given_name,
-                                            &pool,
-                                            server,
-                                            &address,
+                                            parse, hash, &pool, server, &address,
                                         )
                                         .await?;
                                     }
@@ -1545,12 +1542,9 @@ where
                                 }
                                 ExtendedProtocolData::Describe { data, metadata } => {
                                     // This is using a prepared statement
-                                    if let Some(client_given_name) = metadata {
+                                    if let Some((parse, hash)) = metadata {
                                         self.ensure_prepared_statement_is_on_server(
-                                            client_given_name,
-                                            &pool,
-                                            server,
-                                            &address,
+                                            parse, hash, &pool, server, &address,
                                         )
                                         .await?;
                                     }
@@ -1846,44 +1840,36 @@ where
         }
     }
 
-    /// Makes sure the the checked out server has the prepared statement and sends it to the server if it doesn't
+    /// Makes sure the the checked out server has the prepared statement and sends it to the server if it doesn't.
+    /// The statement is the one the name stood for when the Bind or Describe was buffered (and rewritten):
+    /// a later Parse in the same batch may have given the name to another statement since.
     async fn ensure_prepared_statement_is_on_server(
         &mut self,
-        client_name: String,
+        parse: Arc<Parse>,
+        hash: u64,
         pool: &ConnectionPool,
         server: &mut Server,
         address: &Address,
     ) -> Result<(), Error> {
-        match self.prepared_statements.get(&client_name) {
-            Some((parse, hash)) => {
-                debug!("Prepared statement `{}` found in cache", client_name);
-                // In this case we want to send the parse message to the server
-                // since pgcat is initiating the prepared statement on this specific server
-                match self
-                    .register_parse_to_server_cache(true, hash, parse, pool, server, address)
-                    .await
-                {
-                    Ok(_) => (),
-                    Err(err) => match err {
-                        Error::PreparedStatementError => {
-                            debug!("Removed {} from client cache", client_name);
-                            self.prepared_statements.remove(&client_name);
-                        }
-
-                        _ => {
-                            return Err(err);
-                        }
-                    },
+        // In this case we want to send the parse message to the server
+        // since pgcat is initiating the prepared statement on this specific server
+        match self
+            .register_parse_to_server_cache(true, &hash, &parse, pool, server, address)
+            .await
+        {
+            Ok(_) => (),
+            Err(err) => match err {
+                Error::PreparedStatementError => {
+                    debug!("Removed {} from client cache", parse.name);
+                    self.prepared_statements
+                        .retain(|_, (cached, _)| cached.name != parse.name);
                 }
-            }
 
-            None => {
-                return Err(Error::ClientError(format!(
-                    "prepared statement `{}` not found",
-                    client_name
-                )))
-            }
-        };
+                _ => {
+                    return Err(err);
+                }
+            },
+        }
 
         Ok(())
     }
@@ -1982,7 +1968,7 @@ where
         let client_given_name = Bind::get_name(&message)?;
 
         match self.prepared_statements.get(&client_given_name) {
-            Some((rewritten_parse, _)) => {
+            Some((rewritten_parse, hash)) => {
                 let message = Bind::rename(message, &rewritten_parse.name)?;
 
                 debug!(
@@ -1991,7 +1977,10 @@ where
                 );
 
                 self.extended_protocol_data_buffer.push_back(
-                    ExtendedProtocolData::create_new_bind(message, Some(client_given_name)),
+                    ExtendedProtocolData::create_new_bind(
+                        message,
+                        Some((rewritten_parse.clone(), *hash)),
+                    ),
                 );
 
                 Ok(())
@@ -2043,7 +2032,7 @@ where
         let client_given_name = describe.statement_name.clone();
 
         match self.prepared_statements.get(&client_given_name) {
-            Some((rewritten_parse, _)) => {
+            Some((rewritten_parse, hash)) => {
                 let describe = describe.rename(&rewritten_parse.name);
 
                 debug!(
@@ -2054,7 +2043,7 @@ where
                 self.extended_protocol_data_buffer.push_back(
                     ExtendedProtocolData::create_new_describe(
                         describe.try_into()?,
-                        Some(client_given_name),
+                        Some((rewritten_parse.clone(), *hash)),
                     ),
                 );
 
